@@ -277,7 +277,7 @@ PROPS = {
         ],
     },
     "C09": {
-        "units": ["ratelimit", "http", "evloop", "renew", "config", "duration"],
+        "units": ["ratelimit", "http", "evloop", "renew", "config", "duration", "issue"],
         "design_ref": "DESIGN.md section 5 C09",
         "technique": "Verus function contracts + data-structure invariant with ghost admission history",
         "text": "Deductive proof (Verus/Z3) over the extracted limiter code that the admission history stays "
@@ -300,3 +300,17 @@ NOT_APPLICABLE = {
 for _p in ["C01","C02","C03","C04","C05","C06","C07","C08","C10","C11","C13","C14","C15","C16","C17","C18","C19"]:
     if _p not in PROPS:
         NOT_APPLICABLE[_p] = "not yet claimed: its units are still being built (see DESIGN.md section 3); will be claimed when its check exists"
+
+
+# clauses added after the first version of a property's text (mutant batches m, n): appended to the text above
+EXTRA_TEXT = {
+    "C09": "Also: request_certificate never takes a lock it already holds and takes the account lock before the endpoint lock, so that no task withholds its own or another certificate's requests for ever by waiting for a guard it keeps alive (unit issue, rules T-LOCK / T-DROP).",
+    "C10": "Also: one task step runs the post-operation hooks exactly once, after a failed request too, with the status of that request (unit renew).",
+    "C16": "Also: to_idna refuses a name only when one of its labels has no A-label form; a time limit set on a client's stream is a second at least and the handshake runs on a blocking stream.",
+    "C01": "Also: an identifier entry of the configuration is taken only with exactly one of `dns` and `ip` (the hand-written Deserialize impl is verified), and to_idna refuses a name only when a label has no A-label form.",
+    "C13": "Also: a group name is looked up in the group database (not among the users), and the owner is changed on the file the path names (chown, or fchownat without AT_SYMLINK_NOFOLLOW).",
+    "C19": "Also: the limiter counts exactly the logged requests inside the window (a first request is never refused), and the period grammar wants one part at least (fold_many1).",
+    "C17": "Also: a time limit set on a client's stream is a second at least, the handshake runs on a blocking stream, and no `unreachable!()` / failing index sits on a path a client can drive (panic obligations of every function of the unit).",
+}
+for _p, _t in EXTRA_TEXT.items():
+    PROPS[_p]["text"] = PROPS[_p]["text"].rstrip() + " " + _t
